@@ -325,10 +325,10 @@ def run(tier: str, seed: int) -> int:
     import time as _t
     t0 = _t.time()
     if tier == "quick":
-        gens = [("gen-T3", consts(ALL_SPEC_KINDS, 4, {0, 1, 2}, durs=(0, 8), incls=(True,), tols=(0, 1)), 14),
-                ("gen-T5-target", consts({"near", "cum", "ev_zero"}, 6, {0, 1}, durs=(8,), incls=(False,), tols=(0,)), 25),
+        gens = [("gen-T3", consts(ALL_SPEC_KINDS, 3, {0, 1, 2}, durs=(0, 8), incls=(True,), tols=(0, 1)), 12),
+                ("gen-T5-target", consts({"near", "cum", "ev_zero"}, 6, {0, 1}, durs=(8,), incls=(False,), tols=(0,)), 16),
                 ("gen-setdt-T3", consts({"cum", "near", "scum", "ev_zero", "ema"}, 4, {0, 1}, durs=(0,), incls=(False,),
-                                        tols=(0,), dtset=(2, 4)), 40),
+                                        tols=(0,), dtset=(2, 4)), 16),
                 ("gen-E2-T2", consts({"cum", "ev_zero", "pass", "ca"}, 2, {0, 1}, durs=(8,), incls=(True,), E0=2,
                                      tols=(0,), tens=True), 6)]
         nparams = 2
